@@ -504,7 +504,10 @@ func (c *client) receive(r io.Reader) (err error) {
 		return ServerError{fmt.Errorf("got a response with an unexpected call ID: %d", callID)}
 	}
 	if err := c.inFlightDown(); err != nil {
-		return ServerError{err}
+		// we have unregistered the rpc, so it's on us to fail it
+		err = ServerError{err}
+		returnResult(rpc, nil, err)
+		return err
 	}
 
 	select {
